@@ -17,17 +17,23 @@ def schema_text(i, faults):
     return "\n".join(lines) + "\n"
 
 
-def op_text(j, faults, lib_from=None):
+def op_text(j, faults, lib_from=None, libv_from=None):
     lines = []
     if lib_from is not None:
         lines.append("#import Lib%d from \"./o%d.graphql\"" % (lib_from, lib_from))
+    if libv_from is not None:
+        lines.append("#import LibV%d from \"./o%d.graphql\"" % (libv_from, libv_from))
     if "import" in faults:
         lines.append("#import Gone from \"./missing%d.graphql\"" % j)
     lines += ["query Q%d {" % j, "  a", "  b(x: %d)" % j, "}"]
     if lib_from is not None:
         lines.append("query UseLib%d { ...Lib%d }" % (lib_from, lib_from))
+    if libv_from is not None:
+        lines.append("query UseLibV%d { ...LibV%d }" % (libv_from, libv_from))
     if "libcheck" in faults:
         lines.append("  fragment Lib%d on Query { a nopeLib%d }" % (j, j))
+    if "libvar" in faults:
+        lines.append("  fragment LibV%d on Query { a b(x: $undefinedHere%d) }" % (j, j))
     if "check" in faults:
         lines.append("  query Bad%d { a nope%d }" % (j, j))
     if "parse" in faults:
@@ -61,7 +67,8 @@ def materialise(p, fmt, pid):
         # the fragment of a "libcheck" file is imported and spread by the NEXT operation file (cyclically)
         prev = (j - 1) % n
         lib_from = prev if ("libcheck" in p["ops"][prev] and (n > 1 or True)) else None
-        t = op_text(j, f, lib_from)
+        libv_from = prev if "libvar" in p["ops"][prev] else None
+        t = op_text(j, f, lib_from, libv_from)
         files.append({"rel": "ops/o%d.graphql" % j, "text": t})
         meta.append({"id": ["operation", j + 1], "rel": "ops/o%d.graphql" % j, "cp": [ord(c) for c in t]})
     args = (["--output-format", fmt] if fmt != "human" else []) + list(p["commands"])
